@@ -328,14 +328,43 @@ def replay(spec):
             sargs[k] = a * (np.array([1, 1, 1, 0, 0]) * s + np.array([0, 0, 0, 1, 1]))
         else:
             sargs[k] = a
-    a = np.asarray(w.call_float(f, args), dtype=float)
-    b = np.asarray(w.call_float(f, sargs), dtype=float)
     k = {"dipole": -3, "circle": -1, "polyline": -1}.get(spec["wrapper"], 0)
     if f in "JM":
         k = 0
-    exp = a * s ** k
-    if not (np.all(np.isfinite(exp)) and np.all(np.isfinite(b))):
-        return False, "non-finite"
-    scale = max(np.abs(exp).max(), np.abs(b).max(), 1e-300)
-    d = np.abs(b - exp).max() / scale
-    return bool(d > 1e-6), f"{w.func}(field={f}) args={spec['args']} s={s}: F(X)*s^{k}={exp.tolist()} but F(s*X)={b.tolist()} (relative difference {d:.2e})"
+    # a decision that does not depend on the observer (e.g. "is this body flat?") leaves the observer unconstrained in the model, and the
+    # model's observer may lie where the diverging branch does not change the value: points inside the body of the model's geometry are
+    # tried as well (same geometry, same s; any reproduced difference is a real run of the real code).  Not for the cylinder-segment
+    # wrappers, whose divergences are classified against the known finding by the model's own point.
+    variants = [None]
+    if "observers" in args and not spec["wrapper"].startswith("cylseg"):
+        if "vertices" in args and args["vertices"].ndim == 3:
+            c = args["vertices"][0].mean(axis=0)
+            variants += [c[None], (0.7 * c + 0.3 * args["vertices"][0][0])[None]]
+        elif "mesh" in args:
+            variants += [args["mesh"][0].reshape(-1, 3).mean(axis=0)[None]]
+        elif "dimension" in args or "diameter" in args:
+            dim = np.ravel(args.get("dimension", args.get("diameter")))
+            variants += [np.zeros((1, 3)), np.array([[0.05, 0.1, 0.15]]) * float(np.min(np.abs(dim[:2])) if dim.size > 1 else abs(dim[0]))]
+    last = (False, "non-finite")
+    for ov in variants:
+        a1, s1 = dict(args), dict(sargs)
+        if ov is not None:
+            ov = np.repeat(np.asarray(ov, dtype=float), len(args["observers"]), axis=0)
+            a1["observers"], s1["observers"] = ov, ov * s
+        try:
+            a = np.asarray(w.call_float(f, a1), dtype=float)
+            b = np.asarray(w.call_float(f, s1), dtype=float)
+        except Exception:  # noqa
+            if ov is None:
+                raise
+            continue
+        exp = a * s ** k
+        if not (np.all(np.isfinite(exp)) and np.all(np.isfinite(b))):
+            continue
+        scale = max(np.abs(exp).max(), np.abs(b).max(), 1e-300)
+        d = np.abs(b - exp).max() / scale
+        shown = {kk: (vv.tolist() if kk == "observers" else spec["args"].get(kk)) for kk, vv in a1.items()}
+        last = (bool(d > 1e-6), f"{w.func}(field={f}) args={shown} s={s}: F(X)*s^{k}={exp.tolist()} but F(s*X)={b.tolist()} (relative difference {d:.2e})")
+        if last[0]:
+            return last
+    return last
